@@ -79,6 +79,7 @@ def is_empty(isd):
 
 class SigTimesHarness(Harness):
   name = "c02_sig_times"
+  quick_only_for = ("C18",)   # the deep tier runs under the harness's own property; the C18 roll-up reuses the quick partitions
   properties = ("C02", "C18")
   functions = ("isd:ISD.significant_times", "isd:ISD.from_model", "isd:ISD.generate_isd_sequence")
   assumptions = ("completeness is stated between two snapshots of the implementation (ISD(t) vs ISD(s)); that each "
